@@ -51,6 +51,23 @@ type e1cfg struct {
 	pool    []string // transactions of the alphabet
 	maxList int      // longest explicit block (all ordered lists with repetition up to this length)
 	depth   int
+	// kinds search: blocks committed after the prelude before every history, and an explicit list of offered blocks
+	// instead of all lists over the pool
+	setup  [][]string
+	blocks [][]string
+}
+
+// kindsCfg: for every account-based transaction kind k (families x0 = exact next nonce, x1 = next+1, x5 = next+5) the
+// blocks [x0] [x1] [x5] [x0,x0] (replay in the block) [x1,x0] (reordered) [x0,x5] (gap after a good one) [x0,x1] (good);
+// replay in a later block and cross-kind re-use of a nonce come from depth >= 2 ([x0] then [x0] / [y0]). The pool
+// (AddTx letters) holds x0 and x5 of every kind.
+func kindsCfg(name string, trie bool, depth int) e1cfg {
+	c := e1cfg{name: name, trie: trie, depth: depth, setup: kindsSetup}
+	for _, f := range kindFamilies {
+		c.pool = append(c.pool, f[0], f[2])
+		c.blocks = append(c.blocks, []string{f[0]}, []string{f[1]}, []string{f[2]}, []string{f[0], f[0]}, []string{f[1], f[0]}, []string{f[0], f[2]}, []string{f[0], f[1]})
+	}
+	return c
 }
 
 func e1configs(quick bool) []e1cfg {
@@ -58,8 +75,9 @@ func e1configs(quick bool) []e1cfg {
 	medium := []string{"s1", "s1x", "kk", "s2", "s12", "a0", "a1", "u0"}
 	if quick {
 		return []e1cfg{
-			{name: "flat", trie: false, pool: append(append([]string{}, medium...), "s1a"), maxList: 2, depth: 2},
+			{name: "flat", trie: false, pool: append(append([]string{}, medium...), "s1a", "s1m"), maxList: 2, depth: 2}, // every confidential spend kind: ring 1, MLSAG, to account, two inputs, duplicate input
 			{name: "flat/deep", trie: false, pool: small, maxList: 2, depth: 3},
+			kindsCfg("flat/kinds", false, 2),
 		}
 	}
 	return []e1cfg{
@@ -69,6 +87,8 @@ func e1configs(quick bool) []e1cfg {
 		{name: "flat/deeper", trie: false, pool: small, maxList: 2, depth: 9},
 		{name: "trie/deep", trie: true, pool: medium, maxList: 2, depth: 3},
 		{name: "trie/deeper", trie: true, pool: small, maxList: 2, depth: 4},
+		kindsCfg("flat/kinds", false, 3),
+		kindsCfg("trie/kinds", true, 2),
 	}
 }
 
@@ -86,6 +106,12 @@ func (c *e1cfg) ops() []e1op {
 		out = append(out, e1op{opAdd, []string{t}})
 	}
 	out = append(out, e1op{kind: opMine}, e1op{kind: opRestart})
+	if c.blocks != nil {
+		for _, b := range c.blocks {
+			out = append(out, e1op{opBlock, b})
+		}
+		return out
+	}
 	lists := [][]string{{}}
 	for l := 1; l <= c.maxList; l++ {
 		var next [][]string
@@ -150,6 +176,11 @@ func execHistory(cat *catalogue, cfg *e1cfg, ops []e1op, hist []int) e1out {
 func execHistory1(cat *catalogue, cfg *e1cfg, ops []e1op, hist []int) (out e1out, restarted bool) {
 	w := newWorld(cat, cfg.trie, true)
 	defer func() { restarted = w.restarted; w.close() }()
+	for _, blk := range cfg.setup {
+		if _, err := w.c.Step(decodeAll(lookup(cat, blk))); err != nil {
+			vk.Fatalf("e1 %s: set-up block %v: %v", cfg.name, blk, err)
+		}
+	}
 	viol := func(key, what string) { out.Viol = append(out.Viol, [2]string{key, what}) }
 	for i, oi := range hist {
 		op := ops[oi]
